@@ -1,17 +1,26 @@
 import HdVerif.Model.Basic
+import HdVerif.Generated.T17p
 /-! C02: segment metadata search of `highdicom.seg.Segmentation` (`get_segment_numbers`, `get_tracking_ids`,
 `segment_numbers`, `number_of_segments`) over the items of the SegmentSequence as records.
 
-Coded concepts are compared as (value, scheme designator) pairs (`CodedConcept.__eq__` without versions; that
-equality is property C17). -/
+Coded concepts are pydicom `Code`s (value, scheme designator, meaning, scheme version) and are compared with
+`Gen.pydCodeEq` — pydicom's `Code.__eq__` as regenerated from pydicom's source for property C17 (T17p): retired SRT
+values are first mapped to their SCT value, then value, scheme designator *and scheme version* must be equal (a code
+with a version does not equal the same code without one).  `CodedConcept.__eq__` builds `Code(self.value, …)` and calls
+it with the filter as `other`.  `mapping s v` is `snomed_mapping[s].get(v)`, a parameter (any function in the theorems;
+the driver gets the entries from pydicom's table). -/
 namespace HdVerif.SegMeta
-open HdVerif
+open HdVerif HdVerif.Gen
+
+abbrev Mapping := String → String → Option String
+
+instance : Inhabited PCode := ⟨⟨none, none, none, none⟩⟩
 
 structure Desc where
   number : Nat
   label : String
-  category : String × String
-  ptype : String × String
+  category : PCode
+  ptype : PCode
   algo : String
   trackingId : Option String
   trackingUid : Option String
@@ -19,8 +28,8 @@ structure Desc where
 
 structure Filter where
   label : Option String := none
-  category : Option (String × String) := none
-  ptype : Option (String × String) := none
+  category : Option PCode := none
+  ptype : Option PCode := none
   algo : Option String := none
   trackingUid : Option String := none
   trackingId : Option String := none
@@ -39,10 +48,10 @@ def segmentNumbersAll (descs : List Desc) (ppv : Option Nat) : List Nat :=
 def numberOfSegments (descs : List Desc) (ppv : Option Nat) : Nat := (segmentNumbersAll descs ppv).length
 
 /-- the list `filter_funcs` built by `get_segment_numbers`, in the order of the source -/
-def numberFilterFuncs (f : Filter) (ppv : Option Nat) : List (Desc → Bool) :=
+def numberFilterFuncs (m : Mapping) (f : Filter) (ppv : Option Nat) : List (Desc → Bool) :=
   (match f.label with | some l => [fun d => d.label == l] | none => []) ++
-  (match f.category with | some c => [fun d => d.category == c] | none => []) ++
-  (match f.ptype with | some c => [fun d => d.ptype == c] | none => []) ++
+  (match f.category with | some c => [fun d => pydCodeEq m d.category c] | none => []) ++
+  (match f.ptype with | some c => [fun d => pydCodeEq m d.ptype c] | none => []) ++
   (match f.algo with | some a => [fun d => d.algo == a] | none => []) ++
   (match f.trackingUid with | some u => [fun d => d.trackingUid == some u] | none => []) ++
   (match f.trackingId with | some u => [fun d => d.trackingId == some u] | none => []) ++
@@ -55,31 +64,31 @@ def badAlgo (f : Filter) : Bool :=
   | none => false
 
 /-- `get_segment_numbers` -/
-def getSegmentNumbers (descs : List Desc) (ppv : Option Nat) (f : Filter) : Except ErrKind (List Nat) :=
+def getSegmentNumbers (m : Mapping) (descs : List Desc) (ppv : Option Nat) (f : Filter) : Except ErrKind (List Nat) :=
   if badAlgo f then .error .value
-  else .ok ((descs.filter fun d => (numberFilterFuncs f ppv).all fun g => g d).map (·.number))
+  else .ok ((descs.filter fun d => (numberFilterFuncs m f ppv).all fun g => g d).map (·.number))
 
-def trackingFilterFuncs (f : Filter) : List (Desc → Bool) :=
-  (match f.category with | some c => [fun d => d.category == c] | none => []) ++
-  (match f.ptype with | some c => [fun d => d.ptype == c] | none => []) ++
+def trackingFilterFuncs (m : Mapping) (f : Filter) : List (Desc → Bool) :=
+  (match f.category with | some c => [fun d => pydCodeEq m d.category c] | none => []) ++
+  (match f.ptype with | some c => [fun d => pydCodeEq m d.ptype c] | none => []) ++
   (match f.algo with | some a => [fun d => d.algo == a] | none => [])
 
 /-- `get_tracking_ids`: a set comprehension; modelled as the duplicate-free list in first-occurrence order
 (the order of the real result is unspecified and is compared after sorting) -/
-def getTrackingIds (descs : List Desc) (f : Filter) : Except ErrKind (List (String × String)) :=
+def getTrackingIds (m : Mapping) (descs : List Desc) (f : Filter) : Except ErrKind (List (String × String)) :=
   if badAlgo f then .error .value
   else .ok ((descs.filterMap fun d =>
     match d.trackingId, d.trackingUid with
-    | some i, some u => if (trackingFilterFuncs f).all (fun g => g d) then some (i, u) else none
+    | some i, some u => if (trackingFilterFuncs m f).all (fun g => g d) then some (i, u) else none
     | _, _ => none).eraseDups)
 
 /-! ### specification-level views -/
 
 /-- a description meets every criterion that is given -/
-def matchesFilter (f : Filter) (d : Desc) : Bool :=
+def matchesFilter (m : Mapping) (f : Filter) (d : Desc) : Bool :=
   (match f.label with | some l => d.label == l | none => true) &&
-  (match f.category with | some c => d.category == c | none => true) &&
-  (match f.ptype with | some c => d.ptype == c | none => true) &&
+  (match f.category with | some c => pydCodeEq m d.category c | none => true) &&
+  (match f.ptype with | some c => pydCodeEq m d.ptype c | none => true) &&
   (match f.algo with | some a => d.algo == a | none => true) &&
   (match f.trackingUid with | some u => d.trackingUid == some u | none => true) &&
   (match f.trackingId with | some u => d.trackingId == some u | none => true)
